@@ -138,13 +138,21 @@ def records_of(case):
     return recs
 
 
+def stem(case):
+    """the file NAME (a function of the case): plain, or one that contains what a shell would expand — `$HOME`, `${HOME}`, a
+    leading `~` — which is part of the name for a reader (class method and alias alike)"""
+    import zlib
+    k = zlib.crc32(json.dumps(case, sort_keys=True, default=repr).encode()) % 5
+    return ["t", "t", "t$HOME", "~t", "a${HOME}b"][k]
+
+
 def write_file(case, d):
     import dataiter as di
     t, reader = case["table"], case["reader"]
     recs = records_of(case)
     enc = case["encoding"]
     if reader in ("df_csv", "lod_csv"):
-        path = os.path.join(d, "t.csv")
+        path = os.path.join(d, stem(case) + ".csv")
         import csv
         with open(path, "w", encoding=enc, newline="") as f:
             w = csv.writer(f, delimiter=case["sep"], lineterminator="\n")
@@ -154,12 +162,12 @@ def write_file(case, d):
                 w.writerow([t["cols"][nm][i] for nm in t["names"]])
         return path
     if reader in ("df_json", "lod_json"):
-        path = os.path.join(d, "t.json")
+        path = os.path.join(d, stem(case) + ".json")
         with open(path, "w", encoding=enc) as f:
             json.dump(recs, f, ensure_ascii=False)
         return path
     if reader == "geojson":
-        path = os.path.join(d, "t.geojson")
+        path = os.path.join(d, stem(case) + ".geojson")
         feats = [{"type": "Feature", "properties": r, "geometry": {"type": "Point", "coordinates": [i, i]}} for i, r in enumerate(recs)]
         with open(path, "w", encoding=enc) as f:
             json.dump({"type": "FeatureCollection", "name": "t", "features": feats}, f, ensure_ascii=False)
@@ -167,10 +175,10 @@ def write_file(case, d):
     df = di.DataFrame(**{f"c{j}": np.array(t["cols"][nm]) for j, nm in enumerate(t["names"])})
     df.colnames = t["names"]
     if reader == "df_npz":
-        path = os.path.join(d, "t.npz")
+        path = os.path.join(d, stem(case) + ".npz")
         df.write_npz(path)
         return path
-    path = os.path.join(d, "t.parquet")
+    path = os.path.join(d, stem(case) + ".parquet")
     df.write_parquet(path)
     return path
 
